@@ -154,6 +154,17 @@ class Interp:
         if isinstance(op, ast.IsNot):
             r = self.compare(ast.Is(), left, right, node)
             return (not r) if isinstance(r, bool) else Sym("not", r)
+        if isinstance(op, (ast.In, ast.NotIn)) and isinstance(right, Obj) and right.cls is not None:
+            m = self.repo.resolve(right.cls, "__contains__", "method")
+            if m is not None:
+                r = self.truth(self.call_func(Closure(m, self_obj=right), [left], {}, node), node)
+                return r if isinstance(op, ast.In) else not r
+        if isinstance(op, (ast.LtE, ast.GtE, ast.Lt, ast.Gt)) and isinstance(left, (set, frozenset)) and isinstance(right, (set, frozenset)):
+            def _in(x, coll):
+                return any(x is y or x == y for y in coll)
+            sub = all(_in(x, right) for x in left)
+            sup = all(_in(x, left) for x in right)
+            return {ast.LtE: sub, ast.GtE: sup, ast.Lt: sub and not sup, ast.Gt: sup and not sub}[type(op)]
         if isinstance(op, (ast.In, ast.NotIn)):
             if isinstance(right, (list, tuple, set, dict, frozenset)):
                 try:
@@ -363,6 +374,14 @@ class Interp:
                 raise AnalysisError(f"unexpected keyword {sorted(extra)}")
             if isinstance(fn, ast.Lambda):
                 return self.eval(fn.body, env, mod)
+            if _is_generator(fn):
+                # generator functions are run eagerly: the values they yield become a list
+                env["__yield__"] = []
+                try:
+                    self.exec_block(body_of(fn), env, mod)
+                except _Return:
+                    pass
+                return env["__yield__"]
             try:
                 self.exec_block(body_of(fn), env, mod)
             except _Return as r:
@@ -526,13 +545,22 @@ class Interp:
             for sub, x in zip(t.elts, items):
                 self.assign(sub, x, env, mod)
         elif isinstance(t, ast.Attribute):
-            self.set_attr(self.eval(t.value, env, mod), t.attr, v, t)
+            self.store_attr(self.eval(t.value, env, mod), t.attr, v, t)
         elif isinstance(t, ast.Subscript):
             c = self.eval(t.value, env, mod)
             k = self.eval(t.slice, env, mod)
             self.set_item(c, k, v, t)
         else:
             raise AnalysisError(f"assignment target {type(t).__name__} not in vocabulary")
+
+    def store_attr(self, obj, attr, v, node):
+        """`obj.attr = v`: through the property setter of the object's class, if it has one."""
+        if isinstance(obj, Obj) and obj.cls is not None and attr not in obj.fields:
+            st = self.repo.resolve(obj.cls, attr, "setter")
+            if st is not None:
+                self.call_func(Closure(st, self_obj=obj), [v], {}, node)
+                return
+        self.set_attr(obj, attr, v, node)
 
     def set_item(self, c, k, v, node):
         if isinstance(c, dict):
@@ -748,6 +776,18 @@ class Interp:
                 parts.append(self.eval(v.value, env, mod))
         return Sym("fstr", *[_keep(p) for p in parts])
 
+    def e_Yield(self, e, env, mod):
+        if "__yield__" not in env:
+            raise AnalysisError("yield outside a generator function")
+        env["__yield__"].append(self.eval(e.value, env, mod) if e.value is not None else None)
+        return None
+
+    def e_YieldFrom(self, e, env, mod):
+        if "__yield__" not in env:
+            raise AnalysisError("yield outside a generator function")
+        env["__yield__"].extend(self.iterate(self.eval(e.value, env, mod), e))
+        return None
+
     def e_Starred(self, e, env, mod):
         raise AnalysisError("starred expression outside call/literal")
 
@@ -820,12 +860,31 @@ class Interp:
             return self.container_method(fv.args[1].v, fv.args[0], args, node)
         if isinstance(fv, Class):
             return self.construct(fv, args, kwargs, node)
+        if isinstance(fv, Obj) and fv.cls is not None:
+            m = self.repo.resolve(fv.cls, "__call__", "method")
+            if m is not None:
+                return self.call_func(Closure(m, self_obj=fv), list(args), dict(kwargs), node)
         raise AnalysisError(f"call of {fv!r} not in vocabulary (line {getattr(node, 'lineno', '?')})")
 
     def construct(self, cls, args, kwargs, node):
         if self.repo.is_subclass(cls, "Exception") or cls.name.startswith("Finam") or cls.name.endswith("Error"):
             return Sym("exc", cls.name, *[a if _plain(a) or isinstance(a, Sym) else repr(a) for a in args])
+        if self.constructs_privately(cls):
+            o = Obj(cls=cls, label=cls.name)
+            init = self.repo.resolve(cls, "__init__", "method")
+            if init is not None:
+                self.call_func(Closure(init, self_obj=o), list(args), dict(kwargs), node)
+            elif args or kwargs:
+                raise AnalysisError(f"construction of {cls.name} with arguments but without __init__")
+            return o
         raise AnalysisError(f"construction of {cls.name} not in vocabulary")
+
+    def constructs_privately(self, cls):
+        """Small private helper classes (leading underscore, no external base) are built by
+        running their own constructor; everything else stays with the rule's vocabulary."""
+        if not cls.name.startswith("_"):
+            return False
+        return all(not isinstance(b, str) or b in ("object",) for k in self.repo.mro(cls) for b in k.bases)
 
     def builtin(self, name, args, kwargs, node):
         if name == "len":
@@ -907,7 +966,33 @@ class Interp:
         if name == "hasattr":
             return isinstance(args[0], Obj) and (args[1] in args[0].fields)
         if name == "getattr":
+            if len(args) > 2:
+                try:
+                    return self.attr(args[0], args[1], node, None)
+                except Raised as r:
+                    if r.name == "AttributeError":
+                        return args[2]
+                    raise
+                except AnalysisError:
+                    if isinstance(args[0], Obj) and args[1] not in args[0].fields:
+                        return args[2]
+                    raise
             return self.attr(args[0], args[1], node, None)
+        if name == "setattr":
+            if not isinstance(args[1], str):
+                raise AnalysisError("setattr with a symbolic attribute name")
+            self.store_attr(args[0], args[1], args[2], node)
+            return None
+        if name == "callable":
+            return isinstance(args[0], (Closure, Class)) or (isinstance(args[0], Sym) and args[0].op in ("builtin", "bound", "ext"))
+        if name == "frozenset":
+            return frozenset(_hashable(x) for x in (self.iterate(args[0], node) if args else []))
+        if name == "sum":
+            seq = self.iterate(args[0], node)
+            tot = args[1] if len(args) > 1 else 0
+            for x in seq:
+                tot = self.binop(ast.Add(), tot, x, node)
+            return tot
         raise AnalysisError(f"builtin {name} not in vocabulary")
 
     def sort(self, seq, key, node, reverse=False):
@@ -1013,7 +1098,13 @@ class Interp:
                     return args[1]
                 self.on_raise(Sym("exc", "KeyError"), node)
             if name == "update":
-                c.update(args[0])
+                for a in args:
+                    if isinstance(a, dict):
+                        c.update(a)
+                    else:
+                        for kv in self.iterate(a, node):
+                            k2, v2 = kv
+                            c[_hashable(k2)] = v2
                 return None
             if name == "setdefault":
                 return c.setdefault(_hashable(args[0]), args[1] if len(args) > 1 else None)
@@ -1023,6 +1114,26 @@ class Interp:
             if name == "copy":
                 return dict(c)
         if isinstance(c, set):
+            if name == "update":
+                for a in args:
+                    for x in self.iterate(a, node):
+                        c.add(_hashable(x))
+                return None
+            if name in ("discard", "remove"):
+                hit = [y for y in c if y is args[0] or y == args[0]]
+                if not hit and name == "remove":
+                    self.on_raise(Sym("exc", "KeyError"), node)
+                for y in hit:
+                    c.discard(y)
+                return None
+            if name in ("union", "difference", "intersection", "copy", "issubset", "issuperset", "isdisjoint"):
+                other = set(_hashable(x) for a in args for x in self.iterate(a, node))
+                return {"union": lambda: set(c) | other, "difference": lambda: set(c) - other, "intersection": lambda: set(c) & other,
+                        "copy": lambda: set(c), "issubset": lambda: set(c) <= other, "issuperset": lambda: set(c) >= other,
+                        "isdisjoint": lambda: not (set(c) & other)}[name]()
+            if name == "clear":
+                c.clear()
+                return None
             if name == "add":
                 c.add(_hashable(args[0]))
                 return None
@@ -1074,6 +1185,18 @@ def _keep(p):
     return repr(p)
 
 
+def _is_generator(fn):
+    stack = list(getattr(fn, "body", []))
+    while stack:
+        n = stack.pop()
+        if isinstance(n, (ast.Yield, ast.YieldFrom)):
+            return True
+        if isinstance(n, (ast.FunctionDef, ast.AsyncFunctionDef, ast.Lambda, ast.ClassDef)):
+            continue
+        stack.extend(ast.iter_child_nodes(n))
+    return False
+
+
 def _all_plain(seq):
     return all(_plain(x) or (isinstance(x, (tuple, list)) and _all_plain(x)) for x in seq)
 
@@ -1109,9 +1232,10 @@ _SINGLETON_OPS = {"enum", "nomask"}
 _BUILTINS = {
     "len", "isinstance", "enumerate", "reversed", "range", "list", "tuple", "set", "dict",
     "zip", "any", "all", "min", "max", "bool", "str", "id", "sorted", "map", "print",
-    "hasattr", "getattr", "next", "int", "float", "abs", "iter",
+    "hasattr", "getattr", "setattr", "next", "int", "float", "abs", "iter", "callable", "frozenset", "sum", "round", "type",
 }
 _CONTAINER_METHODS = {
     "append", "pop", "clear", "extend", "insert", "sort", "copy", "index", "items", "keys",
     "values", "get", "update", "setdefault", "add", "reverse", "remove", "count", "popleft", "appendleft",
+    "discard", "union", "difference", "intersection", "issubset", "issuperset", "isdisjoint",
 }
